@@ -287,3 +287,21 @@ if [ ! -f v3ee.cert.pem ]; then
   mkv3 forged3-enc  "server.sim enc"  keyEncipherment,dataEncipherment,keyAgreement serverAuth,clientAuth server.sim
   rm -f t.csr t.ext
 fi
+# (wave 16) server identities certified for an IP address only (iPAddress SAN 10.0.0.1) under both roots
+if [ ! -f srvip-sign.cert.pem ]; then
+  mkip() { # name CN ku
+    openssl genpkey -algorithm SM2 -out "$1.key.pem" 2>/dev/null
+    { echo "basicConstraints=critical,CA:FALSE"; echo "keyUsage=critical,$3"; echo "extendedKeyUsage=serverAuth,clientAuth"; echo "subjectKeyIdentifier=hash"; echo "authorityKeyIdentifier=keyid"; echo "subjectAltName=IP:10.0.0.1"; } > "$1.ext"
+    openssl req -new -key "$1.key.pem" -subj "/C=CN/O=verifsim/CN=$2" -out "$1.csr" -sm3 $D
+    openssl x509 -req $V -in "$1.csr" -CA caA.cert.pem -CAkey caA.key.pem -out "$1.cert.pem" -extfile "$1.ext" -not_before $VB -not_after $VA -sm3 $D -set_serial $RANDOM$RANDOM 2>/dev/null
+    rm -f "$1.csr" "$1.ext"
+  }
+  mkip srvip-sign "ip sign" digitalSignature
+  mkip srvip-enc  "ip enc"  keyEncipherment,dataEncipherment,keyAgreement
+  openssl genpkey -algorithm RSA -pkeyopt rsa_keygen_bits:2048 -out tlsip.key.pem 2>/dev/null
+  { echo "basicConstraints=critical,CA:FALSE"; echo "keyUsage=critical,digitalSignature,keyEncipherment"; echo "extendedKeyUsage=serverAuth"; echo "subjectKeyIdentifier=hash"; echo "authorityKeyIdentifier=keyid"; echo "subjectAltName=IP:10.0.0.1"; } > t.ext
+  openssl req -new -key tlsip.key.pem -subj "/C=CN/O=verifsim/CN=ip" -out t.csr -sha256
+  openssl x509 -req -in t.csr -CA rsaCA.cert.pem -CAkey rsaCA.key.pem -out tlsip.cert.pem -extfile t.ext -not_before $VB -not_after $VA -sha256 -set_serial 9393 2>/dev/null
+  rm -f t.csr t.ext
+  openssl verify -CAfile rsaCA.cert.pem tlsip.cert.pem; openssl verify $V -CAfile caA.cert.pem srvip-sign.cert.pem srvip-enc.cert.pem
+fi
